@@ -430,3 +430,93 @@ theorem valuesOf_congr {h h' : Heap} {s : Sig} (hc : ∀ id ∈ s.reach, h'.cell
       intro id hid; exact hc id (by simp [Sig.reach, hb, hid])
 
 end Sig
+
+namespace Sig
+
+/-! ## deep copies of stateful generating functions -/
+theorem deepcopyFns_mono : ∀ (fs : List FnRef) (h : Heap),
+    h.next ≤ (deepcopyFns h fs).1.next ∧ ∀ id, id < h.next → (deepcopyFns h fs).1.cell id = h.cell id := by
+  intro fs
+  induction fs with
+  | nil => intro h; exact ⟨Nat.le_refl _, fun _ _ => rfl⟩
+  | cons f r ih =>
+    intro h
+    cases f with
+    | plain k => exact ih h
+    | object k c =>
+      have := ih (h.allocs [h.cell c])
+      simp only [deepcopyFns, allocs_next, List.length_cons, List.length_nil] at this ⊢
+      refine ⟨by omega, fun id hid => ?_⟩
+      rw [this.2 id (by omega)]; exact allocs_cell_old hid
+
+/-- the copy has as many functions, every state cell of the copy is freshly allocated, and every
+function of the copy evaluates like the original one -/
+theorem deepcopyFns_spec : ∀ (fs : List FnRef) (h : Heap), (∀ f ∈ fs, ∀ c ∈ f.stateIds, c < h.next) →
+    (deepcopyFns h fs).2.length = fs.length ∧
+    (∀ f ∈ (deepcopyFns h fs).2, ∀ c ∈ f.stateIds, h.next ≤ c ∧ c < (deepcopyFns h fs).1.next) ∧
+    (∀ (i : Nat) (t : Rat), ((deepcopyFns h fs).2[i]?).map (fun f => fnRefEval (deepcopyFns h fs).1 f t) =
+            (fs[i]?).map (fun f => fnRefEval h f t)) := by
+  intro fs
+  induction fs with
+  | nil => intro h _; simp [deepcopyFns]
+  | cons f r ih =>
+    intro h hlt
+    cases f with
+    | plain k =>
+      have hr := ih h (fun f hf => hlt f (by simp [hf]))
+      refine ⟨by simp [deepcopyFns, hr.1], ?_, ?_⟩
+      · intro f hf c hc
+        simp only [deepcopyFns, List.mem_cons] at hf
+        rcases hf with rfl | hf
+        · simp [FnRef.stateIds] at hc
+        · exact hr.2.1 f hf c hc
+      · intro i t
+        cases i with
+        | zero => simp [deepcopyFns, fnRefEval]
+        | succ j => simpa [deepcopyFns] using hr.2.2 j t
+    | object k c =>
+      have hc : c < h.next := hlt (.object k c) (by simp) c (by simp [FnRef.stateIds])
+      have hr := ih (h.allocs [h.cell c]) (fun f hf c' hc' => by
+        have := hlt f (by simp [hf]) c' hc'; simp; omega)
+      have hm := deepcopyFns_mono r (h.allocs [h.cell c])
+      simp only [allocs_next, List.length_cons, List.length_nil] at hr hm
+      refine ⟨by simp [deepcopyFns, hr.1], ?_, ?_⟩
+      · intro f hf c' hc'
+        simp only [deepcopyFns, List.mem_cons] at hf ⊢
+        rcases hf with rfl | hf
+        · simp only [FnRef.stateIds, List.mem_singleton] at hc'
+          subst hc'; exact ⟨Nat.le_refl _, by omega⟩
+        · have := hr.2.1 f hf c' hc'; exact ⟨by omega, this.2⟩
+      · intro i t
+        cases i with
+        | zero =>
+          simp only [deepcopyFns, List.getElem?_cons_zero, Option.map_some, fnRefEval]
+          have e1 : (deepcopyFns (h.allocs [h.cell c]) r).1.cell h.next = h.cell c := by
+            rw [hm.2 h.next (by omega)]
+            have := allocs_cell_new (h := h) (cs := [h.cell c]) (k := 0) (by simp)
+            simpa using this
+          rw [e1]
+        | succ j =>
+          simp only [deepcopyFns, List.getElem?_cons_succ]
+          rw [hr.2.2 j t]
+          cases hj : r[j]? with
+          | none => rfl
+          | some f =>
+            simp only [Option.map_some]
+            congr 1
+            cases f with
+            | plain k' => rfl
+            | object k' c' =>
+              have hc' : c' < h.next :=
+                hlt (.object k' c') (by simp [List.mem_of_getElem? hj]) c' (by simp [FnRef.stateIds])
+              simp only [fnRefEval]
+              rw [allocs_cell_old hc']
+
+/-- a function only looks at its own state cell -/
+theorem fnRefEval_congr {h h' : Heap} {f : FnRef} (hc : ∀ c ∈ f.stateIds, h'.cell c = h.cell c) (t : Rat) :
+    fnRefEval h' f t = fnRefEval h f t := by
+  cases f with
+  | plain k => rfl
+  | object k c => simp only [fnRefEval]; rw [hc c (by simp [FnRef.stateIds])]
+
+end Sig
